@@ -181,3 +181,12 @@ theories/Xattr/XattrProofs.vos theories/Xattr/XattrProofs.vok theories/Xattr/Xat
 theories/Properties_C15.vo theories/Properties_C15.glob theories/Properties_C15.v.beautified theories/Properties_C15.required_vo: theories/Properties_C15.v theories/Xattr/XattrPack.vo theories/Xattr/XattrProofs.vo
 theories/Properties_C15.vio: theories/Properties_C15.v theories/Xattr/XattrPack.vio theories/Xattr/XattrProofs.vio
 theories/Properties_C15.vos theories/Properties_C15.vok theories/Properties_C15.required_vos: theories/Properties_C15.v theories/Xattr/XattrPack.vos theories/Xattr/XattrProofs.vos
+theories/DirBlock/DirBlock.vo theories/DirBlock/DirBlock.glob theories/DirBlock/DirBlock.v.beautified theories/DirBlock/DirBlock.required_vo: theories/DirBlock/DirBlock.v 
+theories/DirBlock/DirBlock.vio: theories/DirBlock/DirBlock.v 
+theories/DirBlock/DirBlock.vos theories/DirBlock/DirBlock.vok theories/DirBlock/DirBlock.required_vos: theories/DirBlock/DirBlock.v 
+theories/DirBlock/DirBlockProofs.vo theories/DirBlock/DirBlockProofs.glob theories/DirBlock/DirBlockProofs.v.beautified theories/DirBlock/DirBlockProofs.required_vo: theories/DirBlock/DirBlockProofs.v theories/DirBlock/DirBlock.vo
+theories/DirBlock/DirBlockProofs.vio: theories/DirBlock/DirBlockProofs.v theories/DirBlock/DirBlock.vio
+theories/DirBlock/DirBlockProofs.vos theories/DirBlock/DirBlockProofs.vok theories/DirBlock/DirBlockProofs.required_vos: theories/DirBlock/DirBlockProofs.v theories/DirBlock/DirBlock.vos
+theories/Properties_C10.vo theories/Properties_C10.glob theories/Properties_C10.v.beautified theories/Properties_C10.required_vo: theories/Properties_C10.v theories/DirBlock/DirBlock.vo theories/DirBlock/DirBlockProofs.vo
+theories/Properties_C10.vio: theories/Properties_C10.v theories/DirBlock/DirBlock.vio theories/DirBlock/DirBlockProofs.vio
+theories/Properties_C10.vos theories/Properties_C10.vok theories/Properties_C10.required_vos: theories/Properties_C10.v theories/DirBlock/DirBlock.vos theories/DirBlock/DirBlockProofs.vos
